@@ -4,8 +4,9 @@ package db
 
 // C08 binding: replays TLC-generated behaviours of specs/ChangeCache on a real db.changeCache bound to a real
 // DatabaseContext (Rosmar) whose feed delivers nothing (nothing is written to the bucket): processEntry,
-// releaseUnusedSequence, releaseUnusedSequenceRange, processPrincipalDoc, InsertPendingEntries and
-// CleanSkippedSequenceQueue are called directly.  After every call the real state is read under changeCache.lock
+// releaseUnusedSequence, releaseUnusedSequenceRange, processPrincipalDoc, InsertPendingEntries,
+// CleanSkippedSequenceQueue and - one level up - DocChanged with forged document feed events (unused_sequences /
+// recent_sequences in the _sync xattr) are called directly.  After every call the real state is read under changeCache.lock
 // and written to the trace; the oracle is specs/ChangeCache/Trace_ChangeCache.tla (no property assertions here).
 //
 // Wiring "own": a fresh changeCache + channel cache on the shared DatabaseContext, started at a seed-chosen initial
@@ -26,6 +27,8 @@ import (
 	"testing"
 	"time"
 
+	sgbucket "github.com/couchbase/sg-bucket"
+	"github.com/couchbase/sync_gateway/base"
 	"github.com/couchbase/sync_gateway/channels"
 )
 
@@ -35,6 +38,9 @@ type vC08Step struct {
 	End  int    `json:"end"`
 	Kind string `json:"kind"`
 	Old  bool   `json:"old"`
+	// DocChanged level (a = "Doc"): the document's unused_sequences and recent_sequences
+	Unused []int `json:"unused"`
+	Recent []int `json:"recent"`
 }
 type vC08Beh struct {
 	Mn    int        `json:"mn"`
@@ -45,6 +51,7 @@ type vC08Beh struct {
 }
 
 const vC08MaxWait = 30 * time.Minute
+const vC08Cas = uint64(1695000000000000000)
 
 type vC08Recorder struct {
 	ChannelCache
@@ -190,6 +197,42 @@ func (g *vC08Rig) deliver(st vC08Step, variant int, id int) {
 	}
 }
 
+// docChanged forges one document feed event (xattr-encoded DCP value whose _sync xattr carries sequence,
+// unused_sequences and recent_sequences) and hands it to the real DocChanged.
+func (g *vC08Rig) docChanged(st vC08Step, id int) {
+	abs := func(xs []int) string {
+		o := "["
+		for i, x := range xs {
+			if i > 0 {
+				o += ","
+			}
+			o += fmt.Sprint(g.base + uint64(x))
+		}
+		return o + "]"
+	}
+	unused := ""
+	if len(st.Unused) > 0 {
+		unused = `"unused_sequences":` + abs(st.Unused) + ","
+	}
+	xattr := fmt.Sprintf(`{"rev":"1-d938e0614de222fe04463b9654e93156","sequence":%d,"recent_sequences":%s,%s"history":{"revs":["1-d938e0614de222fe04463b9654e93156"],"parents":[-1],"channels":[["ABC"]]},"channels":{"ABC":null},"cas":"%s","value_crc32c":"0x8aa182c1","time_saved":"2019-11-04T16:07:03.300815-08:00"}`,
+		g.base+uint64(st.Seq), abs(st.Recent), unused, base.CasToString(vC08Cas))
+	tm := time.Now()
+	if st.Old {
+		tm = tm.Add(-2 * vC08MaxWait)
+	}
+	ev := sgbucket.FeedEvent{
+		Opcode:       sgbucket.FeedOpMutation,
+		Key:          []byte(fmt.Sprintf("x%d_%d", st.Seq, id)),
+		Value:        sgbucket.EncodeValueWithXattrs([]byte(`{"channels":["ABC"]}`), sgbucket.Xattr{Name: base.SyncXattrName, Value: []byte(xattr)}),
+		DataType:     base.MemcachedDataTypeXattr,
+		Cas:          vC08Cas, // equals _sync.cas: recognised as a Sync Gateway write
+		CollectionID: g.coll,
+		Synchronous:  true,
+		TimeReceived: tm,
+	}
+	g.c.DocChanged(ev, DocTypeDocument)
+}
+
 func vC08NewRig(t *testing.T, shared *DatabaseContext, sharedCtx context.Context, b vC08Beh, wiring string, base uint64) *vC08Rig {
 	opts := DefaultCacheOptions()
 	opts.CachePendingSeqMaxNum = b.Mn
@@ -268,6 +311,15 @@ func TestVerif_C08_ChangeCache(t *testing.T) {
 			case "Arrive", "Range":
 				g.deliver(st, rnd.Intn(2), si)
 				tw.Emit(g.snapshot(vObj{"a": st.A, "seq": st.Seq, "end": st.End, "kind": st.Kind, "old": st.Old}))
+			case "Doc":
+				g.docChanged(st, si)
+				if st.Unused == nil {
+					st.Unused = []int{}
+				}
+				if st.Recent == nil {
+					st.Recent = []int{}
+				}
+				tw.Emit(g.snapshot(vObj{"a": "Doc", "seq": st.Seq, "unused": st.Unused, "recent": st.Recent, "old": st.Old}))
 			case "Tick":
 				// InsertPendingEntries only runs when the last run is older than MaxWait: forge the clock it reads
 				atomic.StoreInt64(&g.c.lastAddPendingTime, time.Now().Add(-2*vC08MaxWait).UnixNano())
